@@ -114,8 +114,40 @@ def dag_order_runs(ctx, rng):
             ctx.coverage["distinct_nontrivial"] += 1
 
 
+def tie_runs(ctx, rng):
+    """a dozen identical containers on an overcommitted pool that runs out of memory: all OOM scores are exactly equal, so whatever breaks the tie decides who
+    is killed.  The same run in this process (twice), in a fresh interpreter, and in interpreters that ran other simulations first (process-global counters,
+    e.g. container numbers, at other offsets) must give the same event log"""
+    for i in range(2 if ctx.quick() else 8):
+        tps = rng.choice([1, 2])
+        k = rng.randint(11, 14)
+        pipes = [{"prio": 3, "ops": [{"parents": [], "ticks": 2, "mem": None, "read": 60}]} for _ in range(k)]
+        arrivals = [[] for _ in range(12 * tps)]
+        arrivals[0] = list(range(k))
+        params = {"duration": 12, "ticks_per_second": tps, "num_pools": 1, "cpus_per_pool": 16, "ram_gb_per_pool": rng.choice([64, 128]),
+                  "multi_operator_containers": rng.random() < 0.5, "allow_memory_overcommit": True}
+        wl = {"pipes": pipes, "arrivals": arrivals, "tps": tps}
+        spec = {"params": params, "algo": "overbook", "workload": wl}
+        a = det_run.canonical(params, "overbook", workload=wl)
+        runs = [("a second run in the same process", det_run.canonical(params, "overbook", workload=wl)),
+                ("a fresh interpreter", child(spec, 1)),
+                ("an interpreter that ran other simulations first", child({**spec, "warmup": 1}, 2)),
+                ("an interpreter that ran several other simulations first", child({**spec, "warmup": 3}, 3))]
+        ctx.coverage["evaluations"] += 5
+        ctx.sit("tied_oom_score_runs")
+        nfail = sum(1 for t in a["log"] for r in t[3] if not r[-1]) if a["log"] and a["log"][0] and len(a["log"][0]) > 3 else 0
+        for name, other in runs:
+            if other != a:
+                viol(ctx, "not-reproducible", f"identical containers, tied OOM scores: a different run in {name}: {first_diff(a, other)}",
+                     {"params": params, "algo": "overbook", "workload": wl})
+                break
+        else:
+            ctx.coverage["distinct_nontrivial"] += 1
+
+
 def run(ctx):
     rng = random.Random(ctx.seed)
+    tie_runs(ctx, random.Random(ctx.seed + 29))
     seed_sweep(ctx, rng)
     settings_sweep(ctx, rng)
     dag_order_runs(ctx, rng)
